@@ -34,7 +34,7 @@ ASSUMPTIONS = [
 ]
 
 ENV_KEYS = ["http_proxy", "https_proxy", "HTTP_PROXY", "HTTPS_PROXY", "no_proxy", "NO_PROXY"]
-LABELS = ["a", "b", "ab", "xa"]
+LABELS = ["a", "b", "ab", "xa", "a-b", "a1"]  # (letters, a hyphen, a digit: all legal in a host label)
 NAMES = [".".join(t) for n in (1, 2, 3) for t in itertools.product(LABELS, repeat=n)]
 BASE = (10 << 24) | (32 << 16)  # 10.32.0.0
 
@@ -348,12 +348,14 @@ def run_tunnel(case):
 
 
 def run_redirect(case):
-    """A redirect hop is a new connection: the proxy decision is taken again for the new target."""
+    """Each redirect hop is a new connection: the proxy decision is taken again for every new target (1..3 redirects)."""
     import websocket
 
     obs = Obs()
-    h1, h2 = case["host"], case["redirect_to"]
-    sec2 = case.get("secure2", False)
+    chain = case["redirect_to"] if isinstance(case["redirect_to"], list) else [case["redirect_to"]]
+    hosts = [case["host"]] + list(chain)
+    secs = [False] + (list(case["secure_chain"]) if case.get("secure_chain") else [bool(case.get("secure2", False))] + [False] * (len(chain) - 1))
+    ports = [9100 + 100 * i for i in range(len(hosts))]
     entries = case.get("no_proxy") or []
     for k in ENV_KEYS:
         os.environ.pop(k, None)
@@ -372,15 +374,18 @@ def run_redirect(case):
             kw["http_no_proxy"] = list(entries)
         else:
             os.environ["no_proxy"] = ",".join(entries)
-    url2 = f"{'wss' if sec2 else 'ws'}://{h2}:9200/second"
+    urls = [f"{'wss' if secs[i] else 'ws'}://{hosts[i]}:{ports[i]}/hop{i}" for i in range(len(hosts))]
     net = simnet.Net()
+    gets = []
 
     def factory(sock, addr):
         def respond(req, s_, n):
             if req.startswith(b"CONNECT "):
                 return [b"HTTP/1.1 200 Connection established\r\n\r\n"]
-            if s_.index == 0:
-                return [f"HTTP/1.1 302 Found\r\nLocation: {url2}\r\n\r\n".encode()]
+            gets.append(1)
+            i = len(gets) - 1
+            if i < len(hosts) - 1:
+                return [f"HTTP/1.1 302 Found\r\nLocation: {urls[i + 1]}\r\n\r\n".encode()]
             return [simnet.ok_response(req)]
 
         return simnet.HttpPeer(respond)
@@ -391,33 +396,38 @@ def run_redirect(case):
         with net.installed():
             try:
                 if case.get("api") == "create_connection":
-                    websocket.create_connection(f"ws://{h1}:9100/first", timeout=4, **kw)
+                    websocket.create_connection(urls[0], timeout=4, **kw)
                 elif case.get("api") == "app":
-                    approute.connect(websocket, f"ws://{h1}:9100/first", kw)
+                    approute.connect(websocket, urls[0], kw)
                 else:
-                    websocket.WebSocket().connect(f"ws://{h1}:9100/first", **kw)
+                    websocket.WebSocket().connect(urls[0], **kw)
             except Exception as e:  # noqa: BLE001
                 raised = e
     finally:
         for k in ENV_KEYS:
             os.environ.pop(k, None)
     dials = [(c[0], c[1]) for c in net.resolver_calls]
-    ex1, ex2 = exempt(h1, entries), exempt(h2, entries)
-    want1 = (h1, 9100) if ex1 or pw[False] is None else pw[False]
-    want2 = (h2, 9200) if ex2 or pw[sec2] is None else pw[sec2]
+    exs = [exempt(h, entries) for h in hosts]
+    wants = [(hosts[i], ports[i]) if exs[i] or pw[secs[i]] is None else pw[secs[i]] for i in range(len(hosts))]
     if raised is not None:
         obs.fail(exc_bucket("redirect|raised", raised), f"{type(raised).__name__}: {raised}")
-    elif dials[:1] != [want1]:
-        obs.fail("redirect|first-hop-dial", f"dialled {dials[:1]}, expected {want1}")
-    elif dials[1:2] != [want2]:
-        why = "exempt-target-proxied" if ex2 and want2 != dials[1:2] and ex2 else "proxy-bypassed-or-wrong-proxy"
-        obs.fail(f"redirect|second-hop-dial|{why}", f"hop 1 {h1} exempt={ex1}, hop 2 {url2} exempt={ex2}: dialled {dials}, expected second dial {want2}; no_proxy={entries} src={psrc}")
-    elif len(net.sockets) > 1 and want2 != (h2, 9200):
-        line = bytes(net.sockets[1].sent).split(b"\r\n", 1)[0].decode("latin-1")
-        if line != f"CONNECT {h2}:9200 HTTP/1.1":
-            obs.fail("redirect|second-hop-connect-line", f"{line!r}")
-    obs.cls = ("redirect", f"src:{psrc}", f"exempt1:{int(ex1)}", f"exempt2:{int(ex2)}", f"secure2:{int(sec2)}")
-    obs.nt = ("redirect", h1, h2, tuple(entries), psrc, sec2, case.get("np_src"), case.get("api"), case.get("https_env", True))
+    else:
+        for i in range(len(hosts)):
+            if dials[i:i + 1] != [wants[i]]:
+                if i == 0:
+                    obs.fail("redirect|first-hop-dial", f"dialled {dials[:1]}, expected {wants[0]}")
+                else:
+                    why = "exempt-target-proxied" if exs[i] else "proxy-bypassed-or-wrong-proxy"
+                    nth = "second" if i == 1 else "later"
+                    obs.fail(f"redirect|{nth}-hop-dial|{why}", f"hops {list(zip(urls, exs))}: dialled {dials}, expected dial {i} to be {wants[i]}; no_proxy={entries} src={psrc}")
+                break
+            if i >= 1 and wants[i] != (hosts[i], ports[i]) and len(net.sockets) > i:
+                line = bytes(net.sockets[i].sent).split(b"\r\n", 1)[0].decode("latin-1")
+                if line != f"CONNECT {hosts[i]}:{ports[i]} HTTP/1.1":
+                    obs.fail("redirect|hop-connect-line", f"hop {i}: {line!r}")
+                    break
+    obs.cls = ("redirect", f"src:{psrc}", f"hops:{len(hosts)}") + tuple(f"exempt{i + 1}:{int(e)}" for i, e in enumerate(exs[:3])) + (f"secure2:{int(secs[1])}",)
+    obs.nt = ("redirect", tuple(hosts), tuple(entries), psrc, tuple(secs), case.get("np_src"), case.get("api"), case.get("https_env", True))
     return obs
 
 
@@ -443,8 +453,10 @@ def tunnels(draw):
         "phdr": draw(st.booleans()), "pport_str": draw(st.booleans()), "quote_all": draw(st.booleans()), "reply_cut": draw(st.sampled_from([None, None, 1, 2, 3, 4, 5, 10, 20])),
     }
     if draw(st.integers(0, 3)) == 0:
-        return {"host": host, "redirect_to": draw(st.sampled_from(NAMES + IP_HOSTS[:6] + ["example.com", "api.example.com", "badexample.com"])),
-                "no_proxy": entries, "np_src": c["np_src"], "proxy_src": draw(st.sampled_from(["opt", "env"])), "secure2": draw(st.booleans()),
+        pool = NAMES + IP_HOSTS[:6] + ["example.com", "api.example.com", "badexample.com", "my-app.example.com"]
+        chain = draw(st.lists(st.sampled_from(pool), min_size=1, max_size=3))  # (the default redirect limit is 3)
+        return {"host": host, "redirect_to": chain, "secure_chain": [draw(st.booleans()) for _ in chain],
+                "no_proxy": entries, "np_src": c["np_src"], "proxy_src": draw(st.sampled_from(["opt", "env"])),
                 "https_env": draw(st.booleans()), "api": c["api"]}
     return c
 
